@@ -159,7 +159,7 @@ def norm(calls, f):
     out, fh, prio, assume = [], False, 0, []
     for c in calls:
         t = c[0]
-        if t == 'mark-false-atom':      # only used to NAME the shape of the repaired defect d5c8ba1 should it return
+        if t == 'mark-false-atom':      # only used to NAME the shape of the repaired defect 82b5ba2 should it return
             fh = True
         elif t == 2:
             fh, prio, assume = False, 0, []
@@ -470,7 +470,7 @@ def r_refused(rnd, ext, f, sec):
         c = (5, 1, [r_atom(rnd) for _ in range(rnd.choice([1, 1, 2]))], r_w(rnd), body)
     elif k == 'wdisj':
         c = (5, 0, [r_atom(rnd), r_atom(rnd)], r_w(rnd), body)
-    elif k == 'emptyhead-sum':      # f == 0: no false atom; f != 0: refused by the recursive call (shape of the repaired defect d5c8ba1)
+    elif k == 'emptyhead-sum':      # f == 0: no false atom; f != 0: refused by the recursive call (shape of the repaired defect 82b5ba2)
         c = (5, 0, [], r_w(rnd), body) if f == 0 else rnd.choice([(5, 0, [], rnd.choice([-1, -INT_MAX - 1]), body), (5, 1, [], r_w(rnd), body)])
     elif k == 'emptyhead':
         c = (4, 0, [], [r_lit(rnd) for _ in range(rnd.choice([0, 1, 3]))])
